@@ -58,6 +58,20 @@ inductive Built (α : Type) (K : Nat) where
   | invalid
   | panic (site : String)
 
+/-- a parser followed by a `build_matrix`: `Err(InvalidData)` becomes `Err::Error(MapRes)`; an index
+    panic inside `build_matrix` stays visible as `Except.error site` -/
+def built {α β : Type} {K : Nat} (f : Nom.Parser α) (g : α → Built β K) :
+    Nom.Parser (Except String (Mat β K)) := fun i =>
+  match f i with
+  | .ok r v =>
+    match g v with
+    | .ok m => .ok r (.ok m)
+    | .invalid => .err
+    | .panic site => .ok r (.error site)
+  | .err => .err
+  | .fail => .fail
+  | .incomplete => .incomplete
+
 /-- `symbol::<A>`: `map_res(anychar, A::Symbol::from_char)`; `from_char` rejects non-ASCII -/
 def symbol (A : Alphabet) : Nom.Parser Nat :=
   Nom.mapRes Nom.anychar fun cs =>
